@@ -50,7 +50,8 @@ structure EState where
   lastMeasurement : List Int := []
   draws : List Float := []
   outcomes : List (Char × Nat × Nat) := []   -- reversed: ('m'|'r', qubit, outcome)
-  functions : List FuncDecl := []
+  /-- `m_functions`: the function table is only ever consulted by name -/
+  lookupFn : String → Option FuncDecl := fun _ => none
 
 abbrev EM := StateT EState (Except RErr)
 
@@ -661,7 +662,7 @@ def eval (fuel : Nat) (e : Expr) : EM Value :=
           pure {}
         else
           let st ← get
-          match st.functions.find? (·.name == name) with
+          match st.lookupFn name with
           | some fn => call fuel fn argv
           | none => pure {}     -- no such function and no class context: falls out of the cascade
       | .member _ _ _ => throw (.unsupported "method call")
@@ -935,7 +936,7 @@ structure RunResult where
 /-- `RuntimeEvaluator::execute` for a class-free program -/
 def execute (prog : Program) (draws : List Float) (echoEnabled : Bool) (logOps : Bool) (fuel : Nat) : RunResult :=
   let st0 : EState := { sim := Sim.State.init floatOps logOps, draws := draws, echoEnabled := echoEnabled,
-                        functions := prog.functions }
+                        lookupFn := fun n => prog.functions.find? (·.name == n) }
   if !prog.classes.isEmpty then
     { status := .error (.unsupported "classes"), echo := [], tracked := [], sim := st0.sim, outcomes := [], unmeasured := [] }
   else
